@@ -16,6 +16,9 @@ type scenario struct {
 	Shape   string `json:"shape"`
 	es      []ent
 	classes map[string]bool
+	// protobuf stream
+	protoPayload []byte
+	protoText    string
 }
 
 type gctx struct {
